@@ -143,6 +143,19 @@ def leaf_cases(rng: random.Random, name: str, n: int):
                 real = "E ValueError"
             out.append((f"leaf hopo i:{thr} i:{tk} o:{bits(note)} b:{int(note.is_chord())} b:{int(tap)} b:{int(forced)} "
                         + ("n:" if prev is None else "o:") + f" i:{pt} o:{bits(pn)}", real))
+        elif name in ("tickadd", "after", "during"):
+            from chartparse.instrument import SpecialEvent
+            T, L = rng.choice([0, 5, rng.randint(0, 5000)]), rng.choice([0, 0, 1, rng.randint(0, 600)])
+            tk = rng.choice([T, T + L, T + L - 1, T - 1, T + 1, rng.randint(0, 6000)])
+            tk = max(tk, 0)
+            ns = types.SimpleNamespace(tick=T, sustain=L, end_tick=tick.add(T, L))
+            ns.tick_is_after_event = types.MethodType(SpecialEvent.tick_is_after_event, ns)
+            if name == "tickadd":
+                out.append((f"leaf tickadd {arg(T)} {arg(L)}", call(tick.add, T, L)))
+            elif name == "after":
+                out.append((f"leaf after {arg(tk)} {arg(ns.end_tick)}", call(SpecialEvent.tick_is_after_event, ns, tk)))
+            else:
+                out.append((f"leaf during {arg(tk)} {arg(T)} b:{int(ns.tick_is_after_event(tk))}", call(SpecialEvent.tick_is_during_event, ns, tk)))
         elif name == "anchor":
             us = rng.choice([0, 1, rng.randint(0, 10**9), rng.randint(2**53, 2**56), rng.randint(10**16, 8 * 10**19), 8670214808394963])
 
@@ -210,6 +223,7 @@ def validate(ctx: fw.Ctx, out: fw.Outcome, leaves):
     """run both comparisons; `leaves`: driver leaf names this property relies on"""
     rng = ctx.sub("leaf")
     cases = []
+    leaves = [x for l in leaves for x in (l if isinstance(l, (list, tuple)) else [l])]
     for name in leaves:
         for req, real in leaf_cases(rng, name, ctx.n(150, 20_000)):
             cases.append((req, real, "leaf:" + name))
